@@ -105,8 +105,11 @@ def bind_check(pname, style, tname, pattern):
     return res
 
 def rgs(pattern):
-    m = {}
-    return ''.join(m.setdefault(k, 'abc'[len(m)]) for k in pattern)
+    m, out = {}, []
+    for k in pattern:
+        if k not in m: m[k] = 'abc'[len(m)]
+        out.append(m[k])
+    return ''.join(out)
 
 def bind_part(sub, styles):
     patterns = [p for n in range(1, 5) for p in itertools.product(range(3), repeat=n)]
@@ -356,23 +359,32 @@ def like_part(sub, opname):
     def wrong(form, p, s):
         g = got.get((form, p))
         return g is not None and ((s in g) != pyf(s, p))
+    def bad_subject(form, p):
+        for s in strs:
+            if wrong(form, p, s): return s
+        return None
     for (form, p), g in sorted(got.items()):
         sub.count('like_queries')
+        nbad = 0
         for s in strs:
             sub.count('evaluations')
             if any(c in p for c in '%_!'): sub.count('distinct_nontrivial')
-            if (s in g) == pyf(s, p): continue
-            # shrink (pattern, subject) by table look-ups: every shorter string was enumerated too
-            mp, ms = p, s; changed = True
-            while changed:
-                changed = False
-                for cp, cs in [(mp[:i] + mp[i + 1:], ms) for i in range(len(mp))] + [(mp, ms[:i] + ms[i + 1:]) for i in range(len(ms))]:
-                    if wrong(form, cp, cs): mp, ms, changed = cp, cs, True; break
-            forms = [f for f in ('const', 'param', 'column') if wrong(f, mp, ms)]
-            sig = 'like|%s|forms=%s|pattern=%s subject=%s' % (opname, '+'.join(forms), json.dumps(mp), json.dumps(ms))
-            sub.violation(sig, dict(part='like', op=opname, form=form, pattern=p, subject=s, minimal_pattern=mp, minimal_subject=ms,
-                                    selected=(s in g), python=pyf(s, p)),
-                          '%s (%s): pattern %r subject %r: SQL says %s, Python says %s' % (opname, form, p, s, s in g, pyf(s, p)))
+            if (s in g) != pyf(s, p): nbad += 1
+        if not nbad: continue
+        # minimal failing shape: shortest sub-pattern (by deleting characters) that still selects wrongly;
+        # every shorter string was enumerated too, so this is a table look-up
+        mp = p; changed = True
+        while changed:
+            changed = False
+            for cp in [mp[:i] + mp[i + 1:] for i in range(len(mp))]:
+                if bad_subject(form, cp) is not None: mp, changed = cp, True; break
+        ms = bad_subject(form, mp)
+        forms = [f for f in ('const', 'param', 'column') if bad_subject(f, mp) is not None]
+        s0 = bad_subject(form, p)
+        sig = 'like|%s|forms=%s|minimal pattern consists of %s' % (opname, '+'.join(forms), json.dumps(''.join(sorted(set(mp)))))
+        sub.violation(sig, dict(part='like', op=opname, form=form, pattern=p, subject=s0, minimal_pattern=mp, minimal_subject=ms,
+                                selected=(s0 in g), python=pyf(s0, p), wrong_subjects=nbad),
+                      '%s (%s): pattern %r subject %r: SQL says %s, Python says %s (%d subjects wrong)' % (opname, form, p, s0, s0 in g, pyf(s0, p), nbad))
     if opname == 'in':
         with db_session:
             select("x.id for x in S if '!%_' in x.s", {'S': S})[:]
